@@ -72,7 +72,13 @@ def run(repo: Repo, chk: Check) -> None:
                what=f'{desc}: stack slot {bad[0]["slot"] if bad else "?"} has type {bad[0]["type"] if bad else "?"}, the typing rules give {bad[0]["expected"] if bad else "?"}'
                if bad else f'{desc}: no path agrees with the reference at the value level (see C01)')
         # the same case with two foreign items in the protected prefix (inside DIP 2): same types slot by slot, prefix untouched
-        q2, got2, _ = run_case(repo, prim, args, stack, unroll=5 if thorough else 3, protect=2)
+        try:
+            q2, got2, _ = run_case(repo, prim, args, stack, unroll=5 if thorough else 3, protect=2)
+        except AnalysisError as _e:
+            # the analysis can only trip over a guard value if the instruction took one out of the protected prefix
+            if 'dip_guard' not in str(_e):
+                raise
+            got2 = [{'kind': 'raise', 'exc': 'an item of the protected prefix reached the instruction: ' + str(_e)[:100], 'decisions': [], 'trace': [], 'events': []}]
         bad2 = []
         n2 = 0
         for o in got2:
